@@ -112,7 +112,7 @@ for pid in ["C01","C02","C03","C04","C05","C08","C09","C10","C11","C12","C13","C
 EXTRA_TEXT = {
     "C01": " Also after failed calls: balance and smart queries through App equal the committed state. Address / registry differences following a rolled-back instantiation are attributed here, too. Batches and sibling sub-messages that create a contract and use it at once are part of the histories.",
     "C02": " A rolled-back instantiation leaves no trace in later addresses or in the registry. Chains of 12 to 22 nested sub-messages (innermost failing or not, caught at some level or at none) are part of the histories.",
-    "C03": " Chains of 12 to 22 nested sub-messages with a reply plan at every level are part of the histories.",
+    "C03": " Chains of 12 to 22 nested sub-messages with a reply plan at every level are part of the histories. Where a sub-message produced data, a message response of the reply carries exactly that data.",
     "C06": " Programs contain single gets, partial scans and read / write / read motifs; half of the cases run without the sweep of reads between operations; the base is a user-supplied store that keeps empty values. Towers of 20 to 48 caches nested in one another and programs of 130 to 220 operations in one layer are part of the workload.",
     "C11": " A registry-scale pass stores 66 000 codes (thorough: 70 000) and instantiates hundreds (thorough: 66 000) of contracts: ids consecutive, sampled ids around the byte and two-byte boundaries answer with their own checksum / creator / code, every instance has the derived address, all addresses distinct, every instance keeps its own record.",
     "C04": " Includes event types that already start with wasm- or equal entry-point names and data that is itself an encoded execute / instantiate response.",
@@ -125,10 +125,10 @@ EXTRA_TEXT = {
     "C10": " After a failed call App queries equal the committed state; staking queries equal the raw staking state (BondedDenom equals the parameters supplied last, also where the module is set up twice); smart queries are answered by the recorded code. The key-only and value-only iterations of a query's read-only view list what its range lists.",
     "C12": " Codes assembled by ContractWrapper::new without reply / sudo / migrate entry points: a migration to a code without migrate fails and changes nothing. Admin-less contracts reject every signer incl. the empty string. Wasm messages whose payload the contract cannot read (empty, not JSON, another shape) change nothing, whoever signs them.",
     "C13": " Values include long, padded, reserved-looking and multi-line strings; keys, values and event types of 255 to 258, 511 to 513 and 65 535 to 65 537 bytes occur.",
-    "C17": " Module answers rotate over data / events / both / nothing (reply_on Success and Always must still deliver exactly that answer); execute_multi batches: modules see exactly the prefix up to the first failing message; one response / one batch with 257 to 300 messages reaches the module message by message. A smaller matrix (kind x origin x accepting / failing module) also runs on builds of the repository with the feature sets default, cosmwasm_2_0, stargate, staking and staking+stargate+cosmwasm_1_4: every message / query variant that exists in a build reaches its module there.",
+    "C17": " Module answers rotate over data / events / both / nothing (reply_on Success and Always must still deliver exactly that answer); execute_multi batches: modules see exactly the prefix up to the first failing message; one response / one batch with 257 to 300 messages reaches the module message by message; funds attached to wasm messages (also to a message a contract sends to itself) are moved through the configured bank; payload strings come in unusual spellings. A smaller matrix (kind x origin x accepting / failing module) also runs on builds of the repository with the feature sets default, cosmwasm_2_0, stargate, staking and staking+stargate+cosmwasm_1_4: every message / query variant that exists in a build reaches its module there.",
     "C18": " Whatever validation accepts it returns unchanged (all upper case, non-zero padding-bit spellings and the address with white space or a NUL around it are tried). Near misses of a name and long names sharing a prefix get different addresses.",
     "C19": " Staking and bank programs are generated on a thread of their own and compared between a never-used thread, the used worker thread and other processes that receive the programs in a file; transcripts include env.transaction, reply.gas_used and reply.msg_responses. Two instances of every staking and bank program also run in lock-step on one thread. Other instances run a contract that panics in execute, query and sudo (caught) before / between the compared runs.",
-    "C20": " The wrapper chains also run on builds of the repository with its default and four other reduced feature sets (what a wrapper keeps must not depend on the build's features). Steps given twice (decoy first) equal the chain with the value supplied last; every wrapped entry point's error arrives as that error, still of its own type, and its whole response (attributes, event, data, sub-messages with gas limits, plain messages) arrives unchanged; App::default / App::new / custom_app give the documented defaults. Every component call and every entry point of a reporter contract (through execute, query, sudo, wasm_sudo, execute_multi, instantiate, reply, migrate) is handed the application's own Api and current block.",
+    "C20": " The wrapper chains also run on builds of the repository with its default and four other reduced feature sets (what a wrapper keeps must not depend on the build's features). Steps given twice (decoy first) equal the chain with the value supplied last; every wrapped entry point's error arrives as that error, still of its own type, and its whole response (attributes, event, data, sub-messages with gas limits, plain messages) arrives unchanged; App::default / App::new / custom_app give the documented defaults. Every component call and every entry point of a reporter contract (through execute, query, sudo, wasm_sudo, execute_multi, instantiate, reply, migrate) is handed the application's own Api and current block; funds attached to a wasm message are moved by the configured bank.",
 }
 for _pid, _t in EXTRA_TEXT.items():
     P[_pid]["text"] += _t
